@@ -67,7 +67,7 @@ func (e *Env) evalLoc(loc string) []modLoc {
 		switch u := v.Ty.Underlying().(type) {
 		case *types.Map:
 			mh, mv, _, _ := vc.mapComps(u)
-			return []modLoc{{mh, v.S}, {mv, v.S}, {"ML", v.S}}
+			return []modLoc{{mh, v.S}, {mv, v.S}, {mlOf(mh), v.S}}
 		case *types.Slice:
 			c, _ := vc.elemComp(u.Elem())
 			return []modLoc{{c, "(sl-arr " + v.S + ")"}}
@@ -219,7 +219,7 @@ func (vc *FnVC) callModifies(c *ssa.CallCommon) (comps []string, all bool, keep 
 			}
 		case "delete":
 			mh, mv, _, _ := vc.mapComps(c.Args[0].Type().Underlying().(*types.Map))
-			return []string{mh, mv, "ML"}, false, nil
+			return []string{mh, mv, mlOf(mh)}, false, nil
 		case "copy":
 			if sl, ok := c.Args[0].Type().Underlying().(*types.Slice); ok {
 				comp, _ := vc.elemComp(sl.Elem())
@@ -1127,8 +1127,8 @@ func (vc *FnVC) doBuiltin(res ssa.Value, b *ssa.Builtin, c *ssa.CallCommon, st *
 		case *types.Slice:
 			vc.setTerm(res, "(sl-len "+v.S+")")
 		case *types.Map:
-			vc.mapComps(u)
-			vc.define(res, ite(eq(v.S, "0"), "0", sel(vc.cur(st, "ML"), v.S)))
+			mhl, _, _, _ := vc.mapComps(u)
+			vc.define(res, ite(eq(v.S, "0"), "0", sel(vc.cur(st, mlOf(mhl)), v.S)))
 			vc.assume("(>= " + vc.vals[res].tv.S + " 0)")
 		case *types.Pointer:
 			vc.setTerm(res, fmt.Sprint(u.Elem().Underlying().(*types.Array).Len()))
@@ -1153,14 +1153,14 @@ func (vc *FnVC) doBuiltin(res ssa.Value, b *ssa.Builtin, c *ssa.CallCommon, st *
 		// deleting from a nil map is a no-op
 		has := vc.mapHas(st, mt, m, k)
 		vc.frameCheckGuarded(st, mh, m, not(eq(m, "0")))
-		ml := vc.cur(st, "ML")
-		vc.setComp(st, "ML", ite(eq(m, "0"), ml, sto(ml, m, ite(has, "(- "+sel(ml, m)+" 1)", sel(ml, m)))))
+		ml := vc.cur(st, mlOf(mh))
+		vc.setComp(st, mlOf(mh), ite(eq(m, "0"), ml, sto(ml, m, ite(has, "(- "+sel(ml, m)+" 1)", sel(ml, m)))))
 		cur := vc.cur(st, mh)
 		vc.setComp(st, mh, ite(eq(m, "0"), cur, sto(cur, m, sto(sel(cur, m), k, "false"))))
 		// cardinality (Go semantics, not derivable from the counter alone): a map that still
 		// has a key after the deletion is not empty
 		ks := vc.enc.sortOf(mt.Key())
-		vc.assume("(forall ((q$k " + ks + ")) (! (=> (select (select " + vc.cur(st, mh) + " " + m + ") q$k) (> (select " + vc.cur(st, "ML") + " " + m + ") 0)) :pattern ((select (select " + vc.cur(st, mh) + " " + m + ") q$k))))")
+		vc.assume("(forall ((q$k " + ks + ")) (! (=> (select (select " + vc.cur(st, mh) + " " + m + ") q$k) (> (select " + vc.cur(st, mlOf(mh)) + " " + m + ") 0)) :pattern ((select (select " + vc.cur(st, mh) + " " + m + ") q$k))))")
 	case "copy":
 		panic(unsupported("builtin copy"))
 	case "print", "println":
